@@ -1055,9 +1055,10 @@ impl<'a> CompactionIterator<'a> {
 			&& self.accumulated_versions[0].0.is_hard_delete_marker()
 			&& self.snapshots.first().is_none_or(|&s| s >= self.accumulated_versions[0].0.seq_num());
 
-		// Check if any version is REPLACE
-		// REPLACE semantics: delete all older versions regardless of retention
-		let has_set_with_delete = self.accumulated_versions.iter().any(|(key, _)| key.is_replace());
+		// REPLACE semantics: delete all versions OLDER than the REPLACE regardless of
+		// retention. Versions are processed newest first, so this is set once a REPLACE
+		// has been passed; versions newer than the REPLACE are not affected by it.
+		let mut replace_seen_above = false;
 
 		// Track the visibility of the previous (newer) version we processed.
 		// Used to detect when a newer version supersedes an older one.
@@ -1138,8 +1139,8 @@ impl<'a> CompactionIterator<'a> {
 			} else if is_hard_delete {
 				// Older DELETE: always stale (only latest tombstone matters)
 				true
-			} else if has_set_with_delete && !is_replace {
-				// REPLACE found: all older non-REPLACE versions are stale
+			} else if replace_seen_above && !is_replace {
+				// REPLACE found above: all older non-REPLACE versions are stale
 				true
 			} else {
 				// Older PUT: check versioning and retention
@@ -1185,6 +1186,9 @@ impl<'a> CompactionIterator<'a> {
 
 			// Update for next iteration (this version becomes the "newer" one)
 			newer_version_visibility = Some(current_visibility);
+			if is_replace {
+				replace_seen_above = true;
+			}
 		}
 
 		// Clear accumulated versions for the next key
